@@ -1,3 +1,4 @@
+import os
 import pickle
 import re
 import stat
@@ -149,7 +150,11 @@ class DirHandler(BaseHandler):
                 # Something else has that name: leave it alone.
                 return
         except OSError:
-            pass
+            if self.vfs.isrealfs() and os.path.islink(
+                os.fsencode(self.vfs.getfspath(self.cachename))
+            ):
+                # A dangling link: writing "to it" would create its target.
+                return
         try:
             with self.vfs.open(self.cachename, "wb") as fp:
                 pickle.dump((self.selector, self.fileentries), fp, 1)
